@@ -84,7 +84,10 @@ pub fn run_search(t: &Tables, board: &BoardState, table: &DrawTable, k: u64) -> 
     verif_hooks::install_clock(k);
     verif_hooks::install_log();
     let r = catch_unwind(AssertUnwindSafe(|| {
-        get_best_move(board, &mut tbl, Instant::now(), 0, &tx);
+        // the allowance handed to the search is huge: expiry is decided by the virtual clock alone.  Code that looks at the
+        // real clock directly (an early exit "when half of the slice is gone") then sees plenty of time and stays out of the
+        // way instead of making the run depend on wall time (benign change B3-C08: false alarm sends-not-prefix)
+        get_best_move(board, &mut tbl, Instant::now(), 1_000_000_000, &tx);
     }));
     let log = verif_hooks::take_log();
     let queries = verif_hooks::remove_clock().unwrap_or(0);
@@ -733,6 +736,113 @@ pub fn scenarios(t: &Tables, seeds: &[String], seed: u64, n_small: usize, n_mate
             out.push(json!({"tag": "mate", "cmd": format!("position fen {}", to_fen(&b, 0, 1))}));
             count += 1;
         }
+    }
+    // two mates of different length: a quiet mate in one AND a capture (searched first by the ordering) that also mates, but
+    // later - a root loop that stops at the first mate it meets reports the longer one (seeded C12-9)
+    count = 0;
+    tries = 0;
+    while count < (n_mate + 1) / 2 && tries < 60000 {
+        tries += 1;
+        let strong: &[u32] = [&[6u32, 5, 4][..], &[6, 4, 4], &[6, 5, 2], &[6, 5, 5], &[6, 4, 4, 2]][rng.gen_range(0..5)];
+        let weak: &[u32] = [&[6u32, 1][..], &[6, 2], &[6, 1, 1], &[6, 3], &[6, 4]][rng.gen_range(0..5)];
+        if let Some(b) = random_endgame(t, &mut rng, strong, weak) {
+            let men = |x: &BoardState| x.board.iter().flatten().filter(|q| matches!(q, Square::Full(_))).count();
+            let ms = generate_moves(&b, MoveGenerationMode::AllMoves, &t.hasher);
+            let quiet_mate = ms.iter().any(|m| men(m) == men(&b) && is_check(m, m.to_move) && generate_moves(m, MoveGenerationMode::AllMoves, &t.hasher).is_empty());
+            if !quiet_mate {
+                continue;
+            }
+            let mut sv = Solver { t, memo: HashMap::new(), work: 0, cap: 200_000 };
+            let slow_capture = ms.iter().any(|m| men(m) < men(&b) && !sv.d(m, 0) && sv.d(m, 1));
+            if slow_capture {
+                out.push(json!({"tag": "mate", "cmd": format!("position fen {}", to_fen(&b, 0, 1))}));
+                count += 1;
+            }
+        }
+    }
+    // exchange batteries: one square held by a pawn, attacked and defended several times over (doubled rooks and a queen on
+    // its file, bishops on its diagonals, knights, pawns): the capture search runs ten and more plies deep on that square and
+    // who has the last word decides the value (seeded C12-10: a capture search that stops after six plies)
+    count = 0;
+    tries = 0;
+    while count < n_fam / 3 + 1 && tries < 20000 && n_fam > 0 {
+        tries += 1;
+        let mut used = std::collections::HashSet::new();
+        let mut pcs: Vec<(u32, u32)> = Vec::new();
+        let tf = rng.gen_range(3..=6u32); // file c..f
+        let tr = rng.gen_range(4..=5u32);
+        let tsq = 8 * (tr - 1) + tf;
+        let att = rng.gen_range(0..2u32); // the attacking colour (to move)
+        let def = 1 - att;
+        let mut put = |pcs: &mut Vec<(u32, u32)>, f: i32, r: i32, c: u32| -> bool {
+            if !(1..=8).contains(&f) || !(1..=8).contains(&r) {
+                return false;
+            }
+            let sq = (8 * (r - 1) + f) as u32;
+            if (c % 6 == 1) && (r == 1 || r == 8) {
+                return false;
+            }
+            if !used.insert(sq) {
+                return false;
+            }
+            pcs.push((sq, c));
+            true
+        };
+        let (tfi, tri) = (tf as i32, tr as i32);
+        put(&mut pcs, tfi, tri, 1 + 6 * def);
+        // along the file: the attacker from its own side of the board, the defender from the other
+        let adir = if att == 0 { -1 } else { 1 };
+        for (side, dir) in [(att, adir), (def, -adir)] {
+            let n = rng.gen_range(2..=3);
+            let mut r = tri + dir * rng.gen_range(1..=2);
+            for i in 0..n {
+                let kind = if i == 1 && rng.gen_bool(0.4) { 5 } else { 4 };
+                put(&mut pcs, tfi, r, kind + 6 * side);
+                r += dir;
+            }
+            // a bishop (or queen) on a diagonal, a knight, a pawn
+            if rng.gen_bool(0.8) {
+                let k = rng.gen_range(1..=3);
+                let df = if rng.gen_bool(0.5) { 1 } else { -1 };
+                put(&mut pcs, tfi + df * k, tri + dir * k, [3u32, 3, 5][rng.gen_range(0..3)] + 6 * side);
+            }
+            if rng.gen_bool(0.8) {
+                let (df, dr) = [(1, 2), (-1, 2), (2, 1), (-2, 1)][rng.gen_range(0..4)];
+                put(&mut pcs, tfi + df, tri + dir * dr, 2 + 6 * side);
+            }
+            if rng.gen_bool(0.7) {
+                let df = if rng.gen_bool(0.5) { 1 } else { -1 };
+                put(&mut pcs, tfi + df, tri + dir, 1 + 6 * side);
+            }
+            // the king tucked away on its back rank behind two pawns
+            let kr = if (side == att) == (adir == -1) { 1 } else { 8 };
+            let kf = if rng.gen_bool(0.5) { 7 } else { 2 };
+            put(&mut pcs, kf, kr, 6 + 6 * side);
+            let pr = if kr == 1 { 2 } else { 7 };
+            put(&mut pcs, kf, pr, 1 + 6 * side);
+            put(&mut pcs, kf + 1, pr, 1 + 6 * side);
+        }
+        if pcs.iter().filter(|(_, c)| *c == 6).count() != 1 || pcs.iter().filter(|(_, c)| *c == 12).count() != 1 {
+            continue;
+        }
+        let b = crate::misc::board_from(t, &pcs, att, 0, 0);
+        let other = if att == 0 { PieceColor::Black } else { PieceColor::White };
+        if is_check(&b, other) || is_check(&b, b.to_move) {
+            continue;
+        }
+        // at least three attackers and three defenders of the square
+        let caps = generate_moves(&b, MoveGenerationMode::CapturesOnly, &t.hasher);
+        let on_t = caps.iter().filter(|m| m.last_move.map_or(false, |(_, to)| sq_of(to) == tsq)).count();
+        // defenders: the men of the other side that could take back on the square
+        let mut pcs2 = pcs.clone();
+        pcs2[0].1 = 1 + 6 * att;
+        let b2 = crate::misc::board_from(t, &pcs2, def, 0, 0);
+        let back = generate_moves(&b2, MoveGenerationMode::CapturesOnly, &t.hasher).iter().filter(|m| m.last_move.map_or(false, |(_, to)| sq_of(to) == tsq)).count();
+        if on_t < 3 || back < 3 {
+            continue;
+        }
+        out.push(json!({"tag": "fam", "cmd": format!("position fen {}", to_fen(&b, 0, 1))}));
+        count += 1;
     }
     // a move of the mover stalemates the opponent (a stalemate one ply away must never be announced as a mate)
     count = 0;
